@@ -199,6 +199,10 @@ def eval_case(case):
 def _file_case(case, data, dump, hdr, strf, bad):
     fmt = dump.HEX_DUMP_LINE_FORMATS[case['fmt']]
     lines = rhex.render(data, fmt, case['pad'], case['upper'])
+    if case.get('ins') is not None:
+        pos, text = case['ins']
+        pos = min(pos, len(lines)) if pos >= 0 else len(lines)
+        lines = lines[:pos] + [text] + lines[pos:]
     d = tempfile.mkdtemp(prefix='c17_', dir=clidrv.scratch_root())
     try:
         p = os.path.join(d, 'dump.txt')
@@ -257,6 +261,14 @@ def run_chunk(chunk):
     for n1, n2 in itertools.product(range(6), repeat=2):
         for s1 in range(4):
             _do(res, {'ilog': il, 'names': [n1, n2, n1], 'shapes': [s1, (s1 + 1) % 4, 1], 'dup': True})
+    if il in (1, 2, 3):
+        # file route with a comment / blank / whitespace line before the first, between and after the data lines
+        for names, shapes in (([3, 2], [1, 1]), ([], []), ([4], [0])):
+            for fmt in (0, 1):
+                for pos in (0, 1, 2, -1):
+                    for text in ('# I/O drawer dump', '', '   ', '// 00 11 22', '; AB'):
+                        _do(res, {'ilog': il, 'names': names, 'shapes': shapes, 'file': True, 'fmt': fmt, 'pad': bool(pos % 2),
+                                  'upper': True, 'ins': [pos, text]})
     if il == 1:
         # file route: every byte value in the first dump line (its text column may look like format punctuation)
         for v in range(256):
